@@ -56,6 +56,14 @@ func (p *Profile) FilterSamplesByName(focus, ignore, hide, show *regexp.Regexp) 
 
 	s := make([]*Sample, 0, len(p.Sample))
 	for _, sample := range p.Sample {
+		if len(sample.Location) == 0 {
+			// A sample without frames cannot match any expression: it is
+			// only removed by a focus expression, which requires a match.
+			if focus == nil {
+				s = append(s, sample)
+			}
+			continue
+		}
 		if focusedAndNotIgnored(sample.Location, focusOrIgnore) {
 			if len(hidden) > 0 {
 				var locs []*Location
